@@ -785,24 +785,20 @@ func (server *SugarDB) randomKey(ctx context.Context) string {
 
 	database := ctx.Value("Database").(int)
 
-	_max := len(server.store[database])
-	if _max == 0 {
+	// Only keys that have not expired are candidates: an expired key that has not been
+	// removed yet must not be observable.
+	now := server.clock.Now()
+	keys := make([]string, 0, len(server.store[database]))
+	for key, entry := range server.store[database] {
+		if entry.ExpireAt != (time.Time{}) && entry.ExpireAt.Before(now) {
+			continue
+		}
+		keys = append(keys, key)
+	}
+	if len(keys) == 0 {
 		return ""
 	}
-
-	randnum := rand.Intn(_max)
-	i := 0
-	var randkey string
-
-	for key, _ := range server.store[database] {
-		if i == randnum {
-			randkey = key
-			break
-		} else {
-			i++
-		}
-
-	}
+	randkey := keys[rand.Intn(len(keys))]
 
 	return randkey
 }
